@@ -429,6 +429,12 @@ def castTo (d : Dtype) (a : NdArr) : Outcome NdArr :=
     pure { a with dtype := d, flat := a.flat.map (fun v => match v with | .b x => .i (if x then 1 else 0) | v => v) }
   else throw (unmodelled "cast")
 
+/-- `np.array(zarr_prop["missing"][...], dtype=bool)` / `np.array(zarr_prop["data"][...], dtype=dtype)` when present -/
+def castOpt (d : Dtype) (a : Option NdArr) : Outcome (Option NdArr) :=
+  match a with
+  | some m => do pure (some (← castTo d m))
+  | none => pure none
+
 /-- `_load_prop_to_memory` with `mask = None` -/
 def loadPropToMemory (c : VlenCodec) (z : ZarrProp) (pm : PropMeta) : Outcome PropArr := do
   let dt ← match Dtype.ofName? pm.dtype with
@@ -436,12 +442,8 @@ def loadPropToMemory (c : VlenCodec) (z : ZarrProp) (pm : PropMeta) : Outcome Pr
     | none => throw .typeError
   let varlen := pm.varlength.getD false
   let values ← castTo (if varlen then .u64 else dt) z.values
-  let missing ← match z.missing with
-    | some m => do pure (some (← castTo .bool m))
-    | none => pure none
-  let data ← match z.data with
-    | some d => do pure (some (← castTo dt d))
-    | none => pure none
+  let missing ← castOpt .bool z.missing
+  let data ← castOpt dt z.data
   if varlen then
     match data with
     | none => throw .valueError
